@@ -92,6 +92,7 @@ class Report:
         self.assumptions: list[str] = []
         self.rule = ""
         self.exhaustive = False
+        self.evid_dir = EVID_DIR   # (the behaviours outside the property list write to evidence_extra/)
 
     # --- statistics ----------------------------------------------------
     def add_tlc(self, res) -> None:
@@ -135,7 +136,7 @@ class Report:
         self.violations[c]["count"] += 1
 
     def finish(self, level: str = "model_checking") -> int:
-        os.makedirs(EVID_DIR, exist_ok=True)
+        os.makedirs(self.evid_dir, exist_ok=True)
         for c, info in sorted(self.reproduced.items()):
             f = self.known.get(self.prop, info["sig"])
             print(f"KNOWN-FINDING: property={self.prop} sig={c} {f.get('what', '')} (seen {info['count']}x)")
@@ -176,7 +177,7 @@ class Report:
             "wall_s": round(time.time() - self.t0, 2),
             "violations": len(self.violations),
         }
-        with open(os.path.join(EVID_DIR, self.prop + ".json"), "w") as fh:
+        with open(os.path.join(self.evid_dir, self.prop + ".json"), "w") as fh:
             json.dump(ev, fh, indent=1, default=str)
         print(f"{self.prop} tier={self.tier} states={self.states} transitions={self.transitions} "
               f"traces={self.traces} known={len(self.reproduced)} violations={len(self.violations)} "
